@@ -25,7 +25,7 @@ RULE = ('Hypothesis draws a small backend configuration (1-2 pols, 8/4 bit, sing
 ASSUMPTIONS = ['padding is header-relative as the property states', 'empty strings, quotes and keys longer than 8 characters are not valid cards and not generated',
                'float cards are compared after float()', 'listing order is injected by replacing glob in raw_utils inside the harness process']
 REQUIRED_CLASSES = ['path_used_earlier', 'hdrmod=0', 'hdrmod=1', 'hdrmod=31', 'directio=absent', 'directio=0', 'directio=1', 'template',
-                    'notemplate', 'files=1', 'files>1', 'last_partial', 'listing_unsorted', 'bogus_owned', 'array', 'single', 'user_pktstart', 'second_recording_same_backend', 'key_starts_with_END', 'blimpy_guppiraw', 'keys_differ_in_case_only']
+                    'notemplate', 'files=1', 'files>1', 'last_partial', 'listing_unsorted', 'bogus_owned', 'array', 'single', 'user_pktstart', 'second_recording_same_backend', 'key_starts_with_END', 'blimpy_guppiraw', 'keys_differ_in_case_only', 'stem_with_glob_characters']
 
 OWNED = ['NBITS', 'NPOL', 'OBSNCHAN', 'NANTS', 'BLOCSIZE', 'TBIN', 'CHAN_BW', 'OBSBW', 'OBSFREQ', 'SCANLEN']
 RESERVED = set(OWNED) | {'END', 'PKTIDX', 'PKTSTART', 'PKTSTOP', 'DIRECTIO', 'TELESCOP', 'OBSERVER', 'SRC_NAME'}
@@ -57,7 +57,8 @@ def strategy_(draw, tier):
     value = st.one_of(
         st.integers(-10 ** 9, 10 ** 9).map(lambda v: ['int', v]),
         gen.finite(-1e6, 1e6).map(lambda v: ['float', v]),
-        st.text(alphabet=STRCHARS, min_size=1, max_size=60).map(lambda s: s.strip() or 'x').map(lambda s: ['str', s]))
+        st.text(alphabet=STRCHARS, min_size=1, max_size=60).map(lambda s: s.strip() or 'x').map(lambda s: ['str', s]),
+        st.just(['str', '']))          # an empty string is a string that fits a card
     n_user = draw(st.integers(0, 70))
     keys = draw(st.lists(st.one_of(st.text(alphabet=KEYCHARS, min_size=1, max_size=8),
                                    st.text(alphabet=KEYCHARS + 'abcdefghijklmnopqrstuvwxyz', min_size=1, max_size=8))
@@ -80,7 +81,8 @@ def strategy_(draw, tier):
                 pktstart=draw(st.sampled_from([None, None, None, 0, 3, 999])),
                 again=draw(st.sampled_from([None, 1, 2, 3, 5, 7])),
                 target_mod=draw(st.sampled_from([None, None, 0, 1, 31, 16])),
-                perm_seed=draw(st.integers(0, 10 ** 6)), earlier_use=draw(st.sampled_from([False, False, True])))
+                perm_seed=draw(st.integers(0, 10 ** 6)), earlier_use=draw(st.sampled_from([False, False, True])),
+                stem_chars=draw(st.sampled_from([None, None, None, 'brackets', 'star', 'question'])))
 
 
 def strategy(tier):
@@ -150,7 +152,10 @@ def run_case(case, ctx):
     else:
         dio = bool(case['template'])
         obs.cls('directio=absent')
-    stem = ctx.path('rec')
+    # file stems are ordinary paths: brackets and other glob metacharacters may occur in them
+    stem = ctx.path({None: 'rec', 'brackets': 'rec[1]', 'star': 'rec_a*b', 'question': 'rec_v?'}[case.get('stem_chars')])
+    if case.get('stem_chars'):
+        obs.cls('stem_with_glob_characters')
     if case.get('earlier_use'):
         # the same path held a different recording before, and the library's readers were used on it
         obs.cls('path_used_earlier')
@@ -299,6 +304,13 @@ def run_case(case, ctx):
             if Shim.order is not None and set(res) == set(Shim.order):
                 return list(Shim.order)
             return res
+        # everything else of the module as it is (the library is free to use escape / iglob / has_magic)
+        escape = staticmethod(real_glob.escape)
+        has_magic = staticmethod(real_glob.has_magic)
+
+        @staticmethod
+        def iglob(pattern, *a, **k):
+            return iter(Shim.glob(pattern, *a, **k))
     saved = raw_utils.glob
     raw_utils.glob = Shim
     try:
